@@ -911,7 +911,7 @@ import asyncio
 import icontract
 
 
-@icontract.invariant(lambda self: self.x >= 0)
+@icontract.invariant(lambda self: self.x >= 0, check_on=icontract.InvariantCheckEvent.ALL)
 class Account:
     def __init__(self):
         self.x = 1
@@ -922,6 +922,23 @@ class Account:
 
     def peek(self):
         return self.x
+
+    async def fan_out(self, how):
+        """While this call is in flight, another flow assigns an attribute of the object."""
+        def assign():
+            self.x = -5
+            return "assigned"
+
+        async def assign_in_task():
+            return assign()
+
+        if how == "task":
+            child = asyncio.ensure_future(assign_in_task())
+        else:
+            child = asyncio.ensure_future(asyncio.to_thread(assign))
+        (outcome,) = await asyncio.gather(child, return_exceptions=True)
+        self.__dict__["x"] = 1
+        return type(outcome).__name__ if isinstance(outcome, BaseException) else outcome
 
     async def transfer(self, event):
         """Breaks the invariant temporarily; lets the other call finish in between; calls a public method of itself."""
@@ -962,7 +979,27 @@ def run_shared_context(w) -> None:
         except BaseException as err:  # pylint: disable=broad-except
             return "raised {}".format(type(err).__name__)
 
+    async def assign_alone():
+        account = mod.Account()
+        try:
+            account.x = -5
+            return "assigned"
+        except BaseException as err:  # pylint: disable=broad-except
+            return type(err).__name__
+
     try:
+        # an attribute assignment that breaks the invariant is refused - alone, and from a task / a thread started while a method of
+        # the object is in flight
+        base_assign = verdict(assign_alone())
+        for how in ("task", "thread"):
+            res = verdict(mod.Account().fan_out(how))
+            w.count("calls_judged")
+            w.count("calls_overlapping_with_another")
+            w.count("shared_context_schedules")
+            w.case(("assignment-from-another-flow", how))
+            if res != base_assign:
+                w.violation("C12/checks-disabled-in-flow-started-during-a-call", "attribute assignment from a {} started while a method of the object is "
+                            "in flight gave {}, alone it gives {}".format(how, res, base_assign), {"shared_context": "assign-" + how})
         base = verdict(alone())
         for tag, make in (("two-tasks-sharing-one-context", shared_context),):
             res = verdict(make())
